@@ -7,12 +7,52 @@ def cfg(chk, name, maxcalls, gen):
     return vlib.builder_cfg(chk, name, maxcalls, gen, rich=False)
 
 
+def observed_claims(row):
+    """C16 evaluated on what the real code returned: role agreement call by call, pairing of single allocations, phase separation."""
+    bad = []
+    calls = {"P": [c for c in row.get("calls", []) if c[0] == "P"], "V": [c for c in row.get("calls", []) if c[0] == "V"]}
+    if not row["program"].get("vskip"):
+        for k, (p, v) in enumerate(zip(calls["P"], calls["V"])):
+            if p[2] != v[2]:
+                break                       # the two roles were not given the same call (prover-only hook calls)
+            if p[4] == "" and (p[3] != v[3] or p[5] != v[5]):
+                bad.append("call %d (%s): prover returned %s with %s gates, verifier %s with %s gates" % (k, p[2], p[3], p[5], v[3], v[5]))
+                break
+    for role in ("P", "V"):
+        n1 = None      # gates at the end of phase 1
+        prev = None
+        for c in calls[role]:
+            _, ph, op, ret, err, mlen = c
+            if ph == 2 and n1 is None:
+                n1 = prev[5] if prev else 0
+            if op == "alloc" and err == "" and isinstance(ret, list) and len(ret) == 2:
+                if ph == 2 and n1 is not None and ret[1] < n1:
+                    bad.append("%s: an allocation of the second phase returned %s, a wire of first-phase gate %d" % (role, ret, ret[1]))
+                if prev and prev[2] == "alloc" and prev[4] == "" and prev[1] == ph and prev[3][0] == "L" and ret != ["R", prev[3][1]]:
+                    bad.append("%s: consecutive single allocations returned %s then %s" % (role, prev[3], ret))
+            if op in ("alloc", "alloc_none") and err == "MissingAssignment" and prev is not None and mlen != prev[5]:
+                bad.append("%s: a failed allocation changed the gate count" % role)
+            prev = c
+    return bad
+
+
+def multi_callback(prog):
+    return sum(1 for cb in prog["p"].get("cbs", []) if cb) > 1
+
+
 def report(chk, rows, what):
     for r in rows:
         chk.count_case(r["program"]["p"], nontrivial=len(r["program"]["p"]["ops"]) > 0)
-        if r["bad"]:
-            chk.violation("%s-%s-%s" % (what, r["curve"], r["program"].get("id", "")), {"curve": r["curve"], "program": r["program"], "observed": {k: r[k] for k in ("pres", "vres", "decode")},
-                                                            "mismatch": r["bad"]}, "; ".join(r["bad"]))
+        bad = observed_claims(r)
+        # disagreement with the handles the specification predicts: the property itself speaks about the two roles and about pairing;
+        # with several non-empty callbacks the order in which callbacks run is a wire matter (C18), so the prediction is binding for
+        # programs with at most one non-empty callback only
+        if r["bad"] and not multi_callback(r["program"]):
+            bad += r["bad"]
+        if bad:
+            chk.violation("%s-%s-%s" % (what, r["curve"], r["program"].get("id", "")),
+                          {"curve": r["curve"], "program": r["program"], "observed": {k: r[k] for k in ("pres", "vres", "decode")}, "mismatch": bad},
+                          "; ".join(bad[:3]))
 
 
 def run(chk):
@@ -40,7 +80,7 @@ def run(chk):
              "constrain, specify_randomized_constraints, phase switch, challenge_scalar} (invariants), and prints one behaviour per state of the "
              "depth-%d model; each behaviour is replayed through the real Prover and Verifier on %s, comparing every returned handle, error kind and "
              "gate count call by call, and the verdict with the model's (probe constraints observe the closing of a pending gate). distinct = distinct programs with at least one call" % (depth_inv, depth_gen, ", ".join(curves)),
-        assumptions=["second-phase calls of a behaviour are placed in the first registered callback",
+        assumptions=["second-phase calls of a behaviour are distributed over the registered callbacks in every way (NextCb)",
                      "verdicts on the 256-bit curves are ideal (soundness error 2^-250 ignored); toy31723 programs use values 2,3 only, so no coincidences arise"],
         extra={"exhaustive": True})
 
